@@ -1,5 +1,6 @@
 import Apko.Model.FS
 import Apko.Proofs.Lemmas.FSAtomic
+import Apko.Proofs.Lemmas.FSData
 /-! C17 — the virtual file systems behave like a file system (theorems over `Model/FS.lean`) -/
 namespace Apko.C17
 open Apko Apko.Path Apko.FS
@@ -95,5 +96,121 @@ theorem failure_atomic (c : Cfg) (fs : FS) (op : Op) (hw : notWriteHeader op) (h
     all_goals (try simp_all)
     all_goals (repeat' split)
     all_goals simp_all
+
+/-! ### reads return exactly the bytes last written -/
+
+/-- slot `hi` holds an open file object on node `ino` at offset `off` through which the node's
+data can be written (any open flag combination except the one `Write` refuses) -/
+structure Writable (fs : FS) (hi : Nat) (ino : Nat) (off : Nat) : Prop where
+  h : ∃ hd : Handle, fs.handles[hi]? = some hd ∧ hd.valid = true ∧ hd.closed = false ∧ hd.rc = false ∧
+        ¬(oAppend hd.flag ∧ oRdwr hd.flag ∧ oWronly hd.flag) ∧ hd.offset = off ∧ hd.ino = ino
+  live : ino < fs.nodes.length
+
+theorem write_step (c : Cfg) (fs : FS) (hi ino off : Nat) (p : Text) (hw : Writable fs hi ino off) :
+    let r := step c fs (.write hi p)
+    r.2 = .ok (.num p.length) ∧ (r.1.node ino).data = writeAt (fs.node ino).data off p ∧
+    Writable r.1 hi ino (off + p.length) ∧ r.1.nodes.length = fs.nodes.length := by
+  obtain ⟨⟨hd, h1, h2, h3, h4, h5, h6, h7⟩, hl⟩ := hw
+  have hlen : hi < fs.handles.length := by
+    rcases Nat.lt_or_ge hi fs.handles.length with h | h
+    · exact h
+    · rw [List.getElem?_eq_none h] at h1; cases h1
+  subst h7
+  simp only [step, h1, h2, h3, h4, h5, h6]
+  simp only [Bool.not_true, Bool.false_eq_true, if_false, Int.toNat_natCast]
+  refine ⟨trivial, ?_, ⟨⟨{ hd with offset := (off : Int) + p.length }, ?_, ?_⟩, ?_⟩, ?_⟩
+  · simp [FS.setHandle, FS.node, FS.setNode, List.getD_eq_getElem?_getD, hl]
+  · simp [FS.setHandle, FS.setNode, hlen, h2, h3, h4]
+  · simp_all
+  · simpa [FS.setHandle] using hl
+  · simp [FS.setHandle]
+
+theorem seek_step (c : Cfg) (fs : FS) (hi ino off : Nat) (to : Nat) (hw : Writable fs hi ino off) :
+    let r := step c fs (.seek hi to 0)
+    r.2 = .ok (.num to) ∧ r.1.nodes = fs.nodes ∧ Writable r.1 hi ino to := by
+  obtain ⟨⟨hd, h1, h2, h3, h4, h5, h6, h7⟩, hl⟩ := hw
+  have hlen : hi < fs.handles.length := by
+    rcases Nat.lt_or_ge hi fs.handles.length with h | h
+    · exact h
+    · rw [List.getElem?_eq_none h] at h1; cases h1
+  subst h7
+  simp only [step, h1, h2, h3, h4]
+  simp only [Bool.not_true, Bool.false_eq_true, if_false, if_true]
+  have : ¬ ((to : Int) < 0) := by omega
+  simp only [show ¬ (0 > 2) by omega, this, if_false]
+  refine ⟨trivial, rfl, ⟨⟨{ hd with offset := (to : Int) }, ?_, ?_⟩, ?_⟩⟩
+  · simp [FS.setHandle, hlen, h2, h3, h4]
+  · simp_all
+  · simpa [FS.setHandle] using hl
+
+/-- the operations of a seek-then-write pattern on one file object, oldest first -/
+def wrOps (hi : Nat) : List (Nat × Text) → List Op
+  | [] => []
+  | w :: rest => .seek hi w.1 0 :: .write hi w.2 :: wrOps hi rest
+
+/-- **read_after_write**, data level: after any pattern of seeks and writes through an open file
+object (including writes after seeking past the end) the node's bytes are those of the
+reference "newest covering write wins, holes are zero". -/
+theorem data_after_writes (c : Cfg) (hi ino : Nat) :
+    ∀ (ws : List (Nat × Text)) (fs : FS) (off : Nat), Writable fs hi ino off →
+      ((run c fs (wrOps hi ws)).1.node ino).data =
+        ws.foldl (fun d w => writeAt d w.1 w.2) (fs.node ino).data := by
+  intro ws
+  induction ws with
+  | nil => intro fs off _; simp [wrOps, run]
+  | cons w rest ih =>
+    intro fs off hw
+    simp only [wrOps, run, List.foldl_cons]
+    obtain ⟨_, hn, hw1⟩ := seek_step c fs hi ino off w.1 hw
+    obtain ⟨_, hd, hw2, _⟩ := write_step c (step c fs (.seek hi w.1 0)).1 hi ino w.1 w.2 hw1
+    rw [ih _ _ hw2, hd]
+    simp [FS.node, hn]
+
+theorem foldl_writeAt_eq_applyWrites (ws : List (Nat × Text)) :
+    ws.foldl (fun d w => writeAt d w.1 w.2) [] = applyWrites ws.reverse := by
+  suffices h : ∀ (ws : List (Nat × Text)) (older : List (Nat × Text)),
+      ws.foldl (fun d w => writeAt d w.1 w.2) (applyWrites older) = applyWrites (ws.reverse ++ older) by
+    simpa [applyWrites] using h ws []
+  intro ws
+  induction ws with
+  | nil => simp
+  | cons w rest ih =>
+    intro older
+    simp only [List.foldl_cons, List.reverse_cons, List.append_assoc, List.singleton_append]
+    exact ih (w :: older)
+
+/-- **read_after_write**: on a file that was empty (created or truncated), after any seek/write
+pattern, byte `i` is the byte of the newest write that covers `i`, zero inside a hole, and absent
+past the end. -/
+theorem read_after_write (c : Cfg) (fs : FS) (hi ino off : Nat) (ws : List (Nat × Text)) (i : Nat)
+    (hw : Writable fs hi ino off) (hempty : (fs.node ino).data = []) :
+    ((run c fs (wrOps hi ws)).1.node ino).data[i]? = lastWriteWins ws.reverse i := by
+  rw [data_after_writes c hi ino ws fs off hw, hempty, foldl_writeAt_eq_applyWrites, applyWrites_spec]
+
+/-- what `ReadAt(n, off)` returns through any open file object of the node is the window
+`[off, off+n)` of its data -/
+theorem readAt_window (c : Cfg) (fs : FS) (hj : Nat) (hd : Handle) (n off : Nat)
+    (h1 : fs.handles[hj]? = some hd) (h2 : hd.valid = true) (h3 : hd.closed = false) (h4 : hd.rc = false)
+    (hoff : off < (fs.node hd.ino).data.length) :
+    step c fs (.readAt hj n off) = (fs, .ok (.bytes (((fs.node hd.ino).data.drop off).take n) false)) := by
+  simp only [step, h1, h2, h3]
+  have hge : ¬ (off ≥ (fs.node hd.ino).data.length) := by omega
+  have hnn : ¬ ((off : Int) < 0) := by omega
+  simp only [handleData, h4, readAtOff, hge, hnn, Bool.not_true, Bool.false_eq_true, if_false,
+    Int.toNat_natCast]
+
+/-- writing `p` and reading the same window back through any file object of that node gives `p` -/
+theorem write_then_readAt (c : Cfg) (fs : FS) (hi hj ino off : Nat) (p : Text) (hp : p ≠ [])
+    (hw : Writable fs hi ino off)
+    (hr : ∃ hd : Handle, (step c fs (.write hi p)).1.handles[hj]? = some hd ∧ hd.valid = true ∧
+            hd.closed = false ∧ hd.rc = false ∧ hd.ino = ino) :
+    (step c (step c fs (.write hi p)).1 (.readAt hj p.length off)).2 = .ok (.bytes p false) := by
+  obtain ⟨hd, h1, h2, h3, h4, h5⟩ := hr
+  obtain ⟨_, hdata, _, _⟩ := write_step c fs hi ino off p hw
+  have hlen : off < ((step c fs (.write hi p)).1.node hd.ino).data.length := by
+    rw [h5, hdata, writeAt_length _ _ _ hp]
+    have : 0 < p.length := List.length_pos_iff.mpr hp
+    omega
+  rw [readAt_window c _ hj hd p.length off h1 h2 h3 h4 hlen, h5, hdata, writeAt_read_back _ _ _ hp]
 
 end Apko.C17
